@@ -485,9 +485,31 @@ class Interp:
             if (init is not None or is_save) and frame.vars is not self.globals \
                     and frame.name != "__main__" and tname != "struct":
                 # static storage: one location shared by every invocation, initialised once
-                if shape is not None:
-                    raise Unsupported("SAVE array")
                 key = f"{self.prefix}save_{frame.name}_{name}"
+                if shape is not None:
+                    # initialised (static) local array: constructor or scalar broadcast
+                    bounds = self._explicit_bounds(shape, frame, guard)
+                    if len(bounds) != 1:
+                        raise Unsupported("SAVE array of rank > 1")
+                    if key not in self.store:
+                        if init is None:
+                            arr = z3.Const(f"undef_save_{frame.name}_{name}", arr_sort(sort_of(tname), 1))
+                        else:
+                            iv = self.ev(init.items[1], frame, guard)
+                            lb = bounds[0][0]
+                            if isinstance(iv, ArrVal):
+                                n = intval(simp(iv.extents[0]))
+                                if n is None:
+                                    raise Unsupported("symbolic array initialiser")
+                                arr = z3.K(I, coerce(iv.elem([z3.IntVal(0)]), sort_of(tname))) if n else \
+                                    z3.Const(f"undef_save_{frame.name}_{name}", arr_sort(sort_of(tname), 1))
+                                for k in range(n):
+                                    arr = z3.Store(arr, simp(lb + k), coerce(iv.elem([z3.IntVal(k)]), sort_of(tname)))
+                            else:
+                                arr = z3.K(I, coerce(iv, sort_of(tname)))
+                        self.new_storage(key, tname, 1, init=arr)
+                    frame.vars[name] = Binding(name, tname, key, rank=1, bounds=bounds)
+                    continue
                 if key not in self.store:
                     if init is not None:
                         iv = coerce(self.ev(init.items[1], frame, guard), sort_of(tname))
@@ -1137,6 +1159,8 @@ class Interp:
                 stv = intval(st)
                 if stv == 0:
                     raise Unsupported("zero stride")
+                if stv is None:
+                    self.inbounds.append(z3.Implies(g, st != 0))
                 raw = (hi - lo + 1) if stv == 1 else tdiv(hi - lo + st, st)
                 ext = simp(z3.If(raw > 0, raw, z3.IntVal(0)))
                 secs.append((d, lo, st, ext))
